@@ -22,7 +22,8 @@ LEAN_MODULES = ['GnpyProofs.Props.C08']
 THEOREMS = [f'Gnpy.Chain.{t}' for t in (
     'floorDiv_spec', 'calcNewLength_spec', 'calcNewLength_short', 'calcNewLength_long', 'split_preserves_length_and_loss',
     'split_preserves_total_loss', 'split_spans_equal', 'splitLine_kinds', 'no_adjacent_fibres', 'roadm_fibre_junction_amplified',
-    'original_order_preserved', 'addMissing_endpoints', 'one_in_one_out', 'endpoints_degree', 'chain_is_path',
+    'original_order_preserved', 'addMissing_endpoints', 'multiband_kinds_follow_design_bands',
+    'inserted_kind_follows_user_amplifiers', 'multiband_dst_first_fails_old', 'multiband_fused_end_mixed_fails_old', 'one_in_one_out', 'endpoints_degree', 'chain_is_path',
     'reachability_unchanged', 'names_unique_partial', 'connectors_defined',
     'padding_reached', 'padRun_dsl', 'padRun_fused_edge_unpadded_fails_current',
     'padRun_idempotent', 'amps_complete')]
@@ -30,17 +31,20 @@ RULE = ('cases from one PRNG: (a) 75 % star topologies (hub ROADM of degree 1-5,
         'elements: fibres 0.5 m - 3000 km incl. 149/149.999/150/150.001/151 km, fused runs, user amplifiers with full/'
         'partial/no settings, Raman fibres, a transceiver-sourced line) x random Span/SI configuration (mode, '
         'delta_power_range, slope, padding, EOL, connectors, max_length, VOA settings) built through network_from_json + '
-        'designed_network; fibres of 100 km and more carry, in half of the cases, a user att_in and 0-3 lumped losses '
+        'designed_network; 30 % of these (without Raman/transceiver line) use eqpt_config_multiband.json with C+L design '
+        'bands on the hub ROADM and on some spokes, lines leaving a C+L ROADM carrying user Multiband_amplifiers instead '
+        'of Edfas; fibres of 100 km and more carry, in half of the cases, a user att_in and 0-3 lumped losses '
         'anywhere strictly inside (several in one sub-span, in the last one, next to a sub-span boundary); (b) 15 % direct calculate_new_length calls around the bounds; (c) 10 % malformed (a chain '
         'whose last element has no successor, an isolated fibre, a lumped loss exactly on a sub-span boundary) that must be rejected with NetworkTopologyError. '
         'non-trivial: design inserted an amplifier, split a fibre or padded a span / calc case with L >= max_length / '
         'every malformed case; distinct = distinct canonical JSON')
 MODEL_SCOPE = ('modelled: calculate_new_length, split_fiber with _span_params (att_in on the first span, lumped losses '
-               'distributed by position), add_roadm_preamp/booster, add_inline_amplifier (Edfa only), '
+               'distributed by position), add_roadm_preamp/booster, add_inline_amplifier incl. the Edfa / Multiband_amplifier decision (_oms_needs_multiband; the number of '
+               'design bands of the source ROADM is an input), '
                'add_connector_loss, add_fiber_padding, prev/next_node_generator, span_loss. Chains are the unit: a '
                'ROADM-ROADM connection without any line element is outside the model (its amplifier depends on the '
-               'node iteration order). Not modelled: Multiband_amplifier insertion, amplifier locations/metadata, edge '
-               'weights; the Raman solver (estimated gains are taken from the implementation); amplifier selection '
+               'node iteration order). Not modelled: the per-band amplifiers of a Multiband_amplifier (monitor only), per_degree_design_bands / '
+               'find_common_range (C07/C15), amplifier locations/metadata, edge weights; the Raman solver (estimated gains are taken from the implementation); amplifier selection '
                '(C10) and the gain/power recurrence (C09) - the monitor only checks that every amplifier ends up with a '
                'library type_variety, gain, VOA and target')
 PARTIAL = ['names_unique_partial: uniqueness of the generated names is proved for the names generated inside one chain '
@@ -49,13 +53,16 @@ PARTIAL = ['names_unique_partial: uniqueness of the generated names is proved fo
            'designed network)']
 
 
+AMP = ('edfa', 'multiband')
+
+
 def gen(rng, tier, widen=False):
     r = rng.random()
     if r < 0.10:
         return gen_malformed(rng, tier)
     if r < 0.25 or (widen and r < 0.5):
         return gen_calc(rng, widen)
-    c = G.gen_case(rng, tier, widen, lumped=True)
+    c = G.gen_case(rng, tier, widen, lumped=True, multiband=True)
     c['kind'] = 'design'
     return c
 
@@ -158,6 +165,9 @@ def design_impl(case, eq, net):
         for n in network.nodes():
             if isinstance(n, E.Fiber):
                 LAST_MID[n.uid] = G.record(n)
+        objs, _ = G.chains_of(network, case)
+        LAST_MID['__chains__'] = [None if o is None else [(G.kind_of(n) if G.kind_of(n) != 'raman' else 'fiber', n.uid)
+                                                            for n in o] for o in objs]
         return orig_attr(network, equipment)
     NW.split_fiber = spy
     NW.add_missing_fiber_attributes = spy_attr
@@ -190,16 +200,27 @@ def endpoints_graph(net):
 def model_chain(case, ch, recs, lo, hi, target, connected=True):
     sp = case['span']
     kind = {'R': 'roadm', 'T': 'trx'}
+    bands = (case.get('roadm_bands') or {}).get(ch['src'], 1)
+    # ROADMs are visited in document order R0, R1, ...: is the destination ROADM visited before the source ROADM?
+    dst_first = ch['src'][0] == 'R' and ch['dst'][0] == 'R' and int(ch['dst'][1:]) < int(ch['src'][1:])
     return dict(chain={'src': ch['src'], 'src_kind': kind[ch['src'][0]], 'dst': ch['dst'], 'dst_kind': kind[ch['dst'][0]],
-                       'line': [G.elem_model(r) for r in recs]},
+                       'line': [G.elem_model(r) for r in recs], 'src_bands': bands, 'dst_first': dst_first},
                 lo=f2b(lo), hi=f2b(hi), target=f2b(target), con_in=f2b(sp['con_in']), con_out=f2b(sp['con_out']),
                 eol=f2b(sp['EOL']), padding=f2b(sp['padding']), connected=connected)
 
 
+def kinds_of_records(recs):
+    return [(('fiber' if r['kind'] == 'raman' else r['kind']), r['uid']) for r in recs]
+
+
+def kinds_of_model(line):
+    return [(('multiband' if e.get('multi') else e['kind']), e['uid']) for e in line]
+
+
 def compare_chain(res, tag, model_line, post):
     """element kinds and uids exactly, fibre figures as floats"""
-    impl_k = [(('fiber' if r['kind'] == 'raman' else r['kind']), r['uid']) for r in post]
-    mod_k = [(e['kind'], e['uid']) for e in model_line]
+    impl_k = kinds_of_records(post)
+    mod_k = kinds_of_model(model_line)
     if not res.cmp_exact(f'{tag}.elements', impl_k, mod_k):
         return
     for r, e in zip(post, model_line):
@@ -233,6 +254,14 @@ def run_design(case, drv):
     # ---- model, chain by chain -----------------------------------------------------------------------------------
     answers = [drv.ask('c08.design', **model_chain(case, ch, recs, lo, hi, target)) for ch, recs in zip(chains, pre)]
     model_err = next((a['error'] for a in answers if 'error' in a), None)
+    # kinds and uids of every chain as add_missing_elements_in_network left it (Edfa or Multiband_amplifier), also when
+    # the rest of the design raises
+    mid = LAST_MID.get('__chains__')
+    if mid is not None:
+        for ch, a, m in zip(chains, answers, mid):
+            if m is not None and 'missing' in a:
+                res.cmp_exact(f'chain[{ch["src"]}->{ch["dst"]}].elements after add_missing', [tuple(x) for x in m],
+                              kinds_of_model(a['missing']))
     if err is not None or model_err is not None:
         # the C08 model covers the completion of the line; errors of the later gain/power walk belong to C09
         if model_err is not None or err != 'TypeError':
@@ -277,6 +306,7 @@ def run_design(case, drv):
 
     # ---- monitor: the statement on the designed DiGraph ------------------------------------------------------------------
     st = monitor_design(res, case, eq, net, pre, post, ends, reach_before, hi)
+    monitor_multiband(res, case, eq, net, post, st)
     res.nontrivial = bool(st['inserted_amps'] or st['split_fibres'] or st['padded_spans'])
     res.stats.update(st)
     res.stats.update({'design': 1, f'degree_{case["k"]}': 1, 'power_mode': int(case['span']['power_mode']),
@@ -343,8 +373,8 @@ def monitor_design(res, case, eq, net, pre, post, ends, reach_before, max_length
                 seq.append(b)
         if seq != [o['uid'] for o in p]:
             res.fail(f'order: input elements {[o["uid"] for o in p]} appear as {seq} after design')
-        st['user_amps'] += sum(1 for o in p if o['kind'] == 'edfa')
-        st['inserted_amps'] += sum(1 for r in q if r['kind'] == 'edfa') - sum(1 for o in p if o['kind'] == 'edfa')
+        st['user_amps'] += sum(1 for o in p if o['kind'] in AMP)
+        st['inserted_amps'] += sum(1 for r in q if r['kind'] in AMP) - sum(1 for o in p if o['kind'] in AMP)
         # split: equal spans, same length and loss in total
         for o in p:
             if o['kind'] not in ('fiber', 'raman'):
@@ -387,7 +417,7 @@ def monitor_design(res, case, eq, net, pre, post, ends, reach_before, max_length
         # padding on every amplifier-to-amplifier span (Raman spans exempt)
         span = None
         for r in q:
-            if r['kind'] == 'edfa':
+            if r['kind'] in AMP:
                 if span:        # closed on both sides by amplifiers
                     st['amp_to_amp_spans'] += 1
                     if any(x['kind'] == 'raman' for x in span):
@@ -407,6 +437,41 @@ def monitor_design(res, case, eq, net, pre, post, ends, reach_before, max_length
             elif span is not None:
                 span.append(r)
     return st
+
+
+def monitor_multiband(res, case, eq, net, post, st):
+    """every Multiband_amplifier of the designed network: a multi_band library model, and one per-band amplifier for each
+    design band of its OMS, each with a library model of that multiband model, a gain and an output VOA (and a power
+    offset in power mode)"""
+    by = nets.by_uid(net)
+    st['multiband_amps'] = 0
+    for i, ch in enumerate(G.all_chains(case)):
+        if post[i] is None or not any(r['kind'] == 'multiband' for r in post[i]):
+            continue
+        src = by[ch['src']]
+        bands = src.per_degree_design_bands.get(post[i][0]['uid'], [])
+        for r in post[i]:
+            if r['kind'] != 'multiband':
+                continue
+            st['multiband_amps'] += 1
+            lib = eq['Edfa'].get(r['variety'])
+            if lib is None or getattr(lib, 'type_def', None) != 'multi_band':
+                res.fail(f'amplifier model: Multiband_amplifier {r["uid"]} has type_variety {r["variety"]!r}, not a '
+                         'multi_band library model')
+                continue
+            if len(r['amps']) != len(bands) or len(bands) < 2:
+                res.fail(f'multiband: {r["uid"]} has {len(r["amps"])} per-band amplifiers for {len(bands)} design bands '
+                         f'of degree {post[i][0]["uid"]}')
+            for b, a in r['amps'].items():
+                if a['variety'] not in lib.multi_band:
+                    res.fail(f'multiband: {r["uid"]} band {b}: amplifier model {a["variety"]!r} is not part of {r["variety"]}')
+                if a['effective_gain'] is None or not math.isfinite(a['effective_gain']) or a['out_voa'] is None:
+                    res.fail(f'multiband: {r["uid"]} band {b}: gain {a["effective_gain"]}, out_voa {a["out_voa"]}')
+                if case['span']['power_mode'] and a['delta_p'] is None:
+                    res.fail(f'multiband: {r["uid"]} band {b}: no delta_p in power mode')
+    if case.get('eqpt'):
+        st['multiband_cases'] = 1
+        st['multiband_designed'] = 1
 
 
 def run_malformed(case, drv):
